@@ -160,7 +160,7 @@ func (w *World) Func(pkg, name string) *ssa.Function {
 	if p == nil {
 		return nil
 	}
-	return w.Opaque(p.Func(name))
+	return w.Opaque(w.unwrapObserver(p.Func(name)))
 }
 
 // Method returns the method name on named type typ (pointer or value receiver) of pkg.
@@ -180,11 +180,11 @@ func (w *World) Method(pkg, typ, name string) *ssa.Function {
 				// wrapper for a promoted or value method: return the declared one instead
 				if o, ok := sel.Obj().(*types.Func); ok {
 					if d := w.Prog.FuncValue(o); d != nil {
-						return w.Opaque(d)
+						return w.Opaque(w.unwrapObserver(d))
 					}
 				}
 			}
-			return w.Opaque(fn)
+			return w.Opaque(w.unwrapObserver(fn))
 		}
 	}
 	return nil
